@@ -106,13 +106,14 @@ theorem freshTx_of {T : List Tx} {seen : List Nat} {tx : Tx} (hnd : (allNodes T)
 
 /-! ### operations through one handle -/
 
-/-- no compaction of the list has to split a leaf of the property tree -/
+/-- no compaction of the list has to split a leaf of the LIVE property tree in place (leaf splits
+    in a new tree are covered) -/
 def OpsCond (cfg : Cfg) : FS → Mem → List HOp → Prop
   | _, _, [] => True
   | fs, m, .commit tx :: rest =>
     OpsCond cfg (run (commitA cfg m fs.pv fs.wf tx) .none fs m).fs (run (commitA cfg m fs.pv fs.wf tx) .none fs m).mem rest
   | fs, m, .compact :: rest =>
-    NoSplit cfg m fs.pv ∧
+    NoLiveSplit cfg m fs.pv ∧
     OpsCond cfg (run (compactA cfg m fs.pv fs.wf) .none fs m).fs (run (compactA cfg m fs.pv fs.wf) .none fs m).mem rest
 
 instance decOpsCond (cfg : Cfg) : ∀ (fs : FS) (m : Mem) (ops : List HOp), Decidable (OpsCond cfg fs m ops)
@@ -121,12 +122,12 @@ instance decOpsCond (cfg : Cfg) : ∀ (fs : FS) (m : Mem) (ops : List HOp), Deci
     decOpsCond cfg (run (commitA cfg m fs.pv fs.wf tx) .none fs m).fs (run (commitA cfg m fs.pv fs.wf tx) .none fs m).mem rest
   | fs, m, .compact :: rest =>
     have := decOpsCond cfg (run (compactA cfg m fs.pv fs.wf) .none fs m).fs (run (compactA cfg m fs.pv fs.wf) .none fs m).mem rest
-    inferInstanceAs (Decidable (NoSplit cfg m fs.pv ∧ _))
+    inferInstanceAs (Decidable (NoLiveSplit cfg m fs.pv ∧ _))
 
 theorem commitsOf_compact (rest : List HOp) : commitsOf (.compact :: rest) = commitsOf rest := rfl
 theorem commitsOf_commit (tx : Tx) (rest : List HOp) : commitsOf (.commit tx :: rest) = tx :: commitsOf rest := rfl
 
-theorem runOps_inv {cfg : Cfg} (hsync : cfg.syncSlot = true) :
+theorem runOps_inv {cfg : Cfg} (hsync : cfg.syncSlot = true) (hcap1 : 1 ≤ cfg.leafCap) :
     ∀ (ops : List HOp) (T : List Tx) (fs : FS) (m : Mem) (cs : List CTx) (c : Nat) (seen : List Nat),
       InvOpen T fs m cs c → TailPre cfg fs m → (∀ x ∈ allNodes T, x ∈ seen) → FreshAll seen (commitsOf ops) →
       OpsCond cfg fs m ops →
@@ -169,7 +170,7 @@ theorem runOps_inv {cfg : Cfg} (hsync : cfg.syncSlot = true) :
     | compact =>
       rw [commitsOf_compact] at hfr ⊢
       obtain ⟨hns, hcond0⟩ := hcond
-      obtain ⟨cs1, c1, h1, ht1⟩ := compact_post h ht hns
+      obtain ⟨cs1, c1, h1, ht1⟩ := compact_post hcap1 h ht hns
       obtain ⟨r1, r2, _⟩ := run_none (compactA cfg m fs.pv fs.wf) fs m
       have hcond' : OpsCond cfg (fs.steps (ioSteps (compactA cfg m fs.pv fs.wf)))
           ((memUpds (compactA cfg m fs.pv fs.wf)).foldl applyUpd m) rest := by
@@ -197,11 +198,11 @@ def TailCond (cfg : Cfg) (fs : FS) : Prop :=
 instance (cfg : Cfg) (fs : FS) : Decidable (TailCond cfg fs) :=
   inferInstanceAs (Decidable (cfg.tailTolerant = true ∨ validLen fs.wf = fs.wf.length))
 
-/-- the condition on a death inside a compaction: no leaf split, and the crash image tears no
+/-- the condition on a death inside a compaction: no in-place leaf split of the live tree, and the crash image tears no
     leaf write of the live property tree (that is the known finding `C01-live-tree-in-place`) -/
 def deathCond (cfg : Cfg) (s : FS × Mem) (mode : CrashMode) : Death → Prop
   | .inCompact k =>
-    NoSplit cfg s.2 s.1.pv ∧
+    NoLiveSplit cfg s.2 s.1.pv ∧
     mode.tearsLive s.2.proot (run (compactA cfg s.2 s.1.pv s.1.wf) (.crashAt k) s.1 s.2).fs.pj = false
   | _ => True
 
@@ -242,7 +243,7 @@ theorem tailPre_after_open {cfg : Cfg} {fs fsO : FS} {mO : Mem} (hw : fsO.wf = f
   · right; simp [h, htc]
   · left; rw [hw]; exact h
 
-theorem round_safe {cfg : Cfg} (hsync : cfg.syncSlot = true) (hfz : cfg.freshZero = true) (hsc : cfg.syncCreate = true)
+theorem round_safe {cfg : Cfg} (hsync : cfg.syncSlot = true) (hfz : cfg.freshZero = true) (hsc : cfg.syncCreate = true) (hcap1 : 1 ≤ cfg.leafCap)
     (T : List Tx) (fs : FS) (seen : List Nat) (r : Round)
     (hc : Start T fs) (hsub : ∀ x ∈ allNodes T, x ∈ seen) (htail : TailCond cfg fs) (hfr : FreshAll seen r.txs)
     (hcond : r.cond cfg fs) :
@@ -267,7 +268,7 @@ theorem round_safe {cfg : Cfg} (hsync : cfg.syncSlot = true) (hfz : cfg.freshZer
       have := hcond
       simp only [Round.cond, hd, o1, o2] at this
       exact this.1
-    obtain ⟨cs', c', hInv', _, hsub'⟩ := runOps_inv hsync r.ops T _ _ csO cO seen hInvO htpO hsub hfr hcond'
+    obtain ⟨cs', c', hInv', _, hsub'⟩ := runOps_inv hsync hcap1 r.ops T _ _ csO cO seen hInvO htpO hsub hfr hcond'
     have hafter : r.after cfg fs = (runOps cfg (fs.steps (ioSteps (openA cfg fs.pv fs.wf)))
         ((memUpds (openA cfg fs.pv fs.wf)).foldl applyUpd {}) r.ops).1.crash r.mode := by
       simp [Round.after, hd, o1, o2]
@@ -285,7 +286,7 @@ theorem round_safe {cfg : Cfg} (hsync : cfg.syncSlot = true) (hfz : cfg.freshZer
       have := hcond
       simp only [Round.cond, hd, o1, o2] at this
       exact this.1
-    obtain ⟨cs', c', hInv', htp2, hsub'⟩ := runOps_inv hsync r.ops T _ _ csO cO seen hInvO htpO hsub hfr1 hcond'
+    obtain ⟨cs', c', hInv', htp2, hsub'⟩ := runOps_inv hsync hcap1 r.ops T _ _ csO cO seen hInvO htpO hsub hfr1 hcond'
     generalize hS : runOps cfg (fs.steps (ioSteps (openA cfg fs.pv fs.wf)))
       ((memUpds (openA cfg fs.pv fs.wf)).foldl applyUpd {}) r.ops = s at hInv' htp2 hsub'
     obtain ⟨g1, g2, g3, _⟩ := hfr2
@@ -323,11 +324,11 @@ theorem round_safe {cfg : Cfg} (hsync : cfg.syncSlot = true) (hfz : cfg.freshZer
     have hcond2 := hcond
     simp only [Round.cond, hd, o1, o2] at hcond2
     obtain ⟨hcond', hdc⟩ := hcond2
-    obtain ⟨cs', c', hInv', htp2, hsub'⟩ := runOps_inv hsync r.ops T _ _ csO cO seen hInvO htpO hsub hfr hcond'
+    obtain ⟨cs', c', hInv', htp2, hsub'⟩ := runOps_inv hsync hcap1 r.ops T _ _ csO cO seen hInvO htpO hsub hfr hcond'
     generalize hS : runOps cfg (fs.steps (ioSteps (openA cfg fs.pv fs.wf)))
       ((memUpds (openA cfg fs.pv fs.wf)).foldl applyUpd {}) r.ops = s at hInv' htp2 hsub' hdc
     obtain ⟨hns, htear⟩ := hdc
-    have sa := compact_safe hInv' htp2 hns
+    have sa := compact_safe hcap1 hInv' htp2 hns
     have hafter : r.after cfg fs = (s.1.steps ((ioSteps (compactA cfg s.2 s.1.pv s.1.wf)).take k)).crash r.mode := by
       simp [Round.after, hd, o1, o2, hS, run_crash_fs]
     rw [run_crash_fs] at htear
@@ -344,7 +345,7 @@ theorem round_safe {cfg : Cfg} (hsync : cfg.syncSlot = true) (hfz : cfg.freshZer
       have := hcond
       simp only [Round.cond, hd, o1, o2] at this
       exact this.1
-    obtain ⟨cs', c', hInv', _, hsub'⟩ := runOps_inv hsync r.ops T _ _ csO cO seen hInvO htpO hsub hfr hcond'
+    obtain ⟨cs', c', hInv', _, hsub'⟩ := runOps_inv hsync hcap1 r.ops T _ _ csO cO seen hInvO htpO hsub hfr hcond'
     generalize hS : runOps cfg (fs.steps (ioSteps (openA cfg fs.pv fs.wf)))
       ((memUpds (openA cfg fs.pv fs.wf)).foldl applyUpd {}) r.ops = s at hInv' hsub'
     have sa := close_safe (cfg := cfg) hInv'
@@ -358,8 +359,8 @@ theorem round_safe {cfg : Cfg} (hsync : cfg.syncSlot = true) (hfz : cfg.freshZer
 /-! ### all incarnations -/
 
 /-- the preconditions of a history, decided round by round on the files the model computes:
-    fresh non-zero external ids, no append behind a torn log tail, and — for compactions — no leaf
-    split and no torn write of a live leaf in the crash image -/
+    fresh non-zero external ids, no append behind a torn log tail, and — for compactions — no in-place leaf
+    split of the live tree and no torn write of a live leaf in the crash image -/
 def HistOK (cfg : Cfg) : FS → List Nat → List Round → Prop
   | _, _, [] => True
   | fs, seen, r :: rest =>
@@ -383,7 +384,7 @@ instance decHistOK (cfg : Cfg) : ∀ (fs : FS) (seen : List Nat) (rounds : List 
     inferInstanceAs (Decidable (TailCond cfg fs ∧ FreshAll seen r.txs ∧ r.cond cfg fs ∧
       HistOK cfg (r.after cfg fs) (seen ++ r.txs.flatMap (·.nodes)) rest))
 
-theorem rounds_safe {cfg : Cfg} (hsync : cfg.syncSlot = true) (hfz : cfg.freshZero = true) (hsc : cfg.syncCreate = true) :
+theorem rounds_safe {cfg : Cfg} (hsync : cfg.syncSlot = true) (hfz : cfg.freshZero = true) (hsc : cfg.syncCreate = true) (hcap1 : 1 ≤ cfg.leafCap) :
     ∀ (rounds : List Round) (T : List Tx) (fs : FS) (seen : List Nat),
       Start T fs → (∀ x ∈ allNodes T, x ∈ seen) → HistOK cfg fs seen rounds →
       ∃ T', Spec.Admissible T (rounds.map Round.obs) T' ∧ Start T' (afterRounds cfg fs rounds) := by
@@ -393,7 +394,7 @@ theorem rounds_safe {cfg : Cfg} (hsync : cfg.syncSlot = true) (hfz : cfg.freshZe
   | cons r rest ih =>
     intro T fs seen hc hsub hok
     obtain ⟨h1, h2, h3, h4⟩ := hok
-    obtain ⟨T1, hstep, hc1, hsub1⟩ := round_safe hsync hfz hsc T fs seen r hc hsub h1 h2 h3
+    obtain ⟨T1, hstep, hc1, hsub1⟩ := round_safe hsync hfz hsc hcap1 T fs seen r hc hsub h1 h2 h3
     obtain ⟨T', hadm, hc'⟩ := ih T1 (r.after cfg fs) _ hc1 hsub1 h4
     refine ⟨T', ?_, hc'⟩
     simp only [List.map_cons]
@@ -464,11 +465,6 @@ theorem spec_run_eq (T : List Tx) : Spec.run T = ⟨allNodes T, allEdges T, allP
   | nil => rfl
   | cons tx T ih => simp [Spec.run, ih, allNodes, allEdges, allProps]
 
-theorem filterMap_id_map_some (xs : List Nat) : (xs.map some).filterMap id = xs := by
-  induction xs with
-  | nil => rfl
-  | cons x xs ih => simp [ih]
-
 /-- what a handle shows on any page-file image whose segments / tree / runs make up `T` -/
 theorem content_of_store {T : List Tx} {m : Mem} {cs : List CTx} {p : PImg} (hst : StoreOK T cs p)
     (mexts : m.exts = allNodes T) (mruns : m.runs = logRuns (scan cs).ckpt cs)
@@ -493,16 +489,15 @@ theorem content_of_store {T : List Tx} {m : Mem} {cs : List CTx} {p : PImg} (hst
         · exact h'
         · rw [hc2 hr] at h'; simp at h'
     · obtain ⟨tr, hf, hto⟩ := hc3 hr
-      obtain ⟨xs, pid, hl, hsrt, hall, hcov⟩ := hto.shape
+      obtain ⟨X, hsh, hall, hcov⟩ := hto.shape
+      obtain ⟨pids, hl⟩ := hsh.leaves
       have hfind : p.trees.find? (fun t => t.key == (scan cs).proot) = some tr := hf
-      have hent : treeEntries tr = xs := by simp [treeEntries, hl, filterMap_id_map_some]
-      have hhas : ∀ q, treeHas p (scan cs).proot false q = (decide (q ∈ xs) && tr.blobs.contains q) := by
+      have hent : treeEntries tr = X.flatten := by simp [treeEntries, hl, entries_mkLeaves]
+      have hhas : ∀ q, treeHas p (scan cs).proot (scan cs).ptop q = true ↔ q ∈ X.flatten ∧ q ∈ tr.blobs := by
         intro q
-        simp only [treeHas, hfind, Bool.false_eq_true, if_false, hl]
-        congr 1
-        rw [Bool.eq_iff_iff, leafFind_single xs hsrt pid q]
-        simp
-      simp only [content, mroot, hr, if_false, mptop, hst.ptop, hfind, hent, mruns, List.mem_append, List.mem_filter, hhas]
+        rw [treeHas_eq _ _ _ _ _ hfind]
+        exact treeHasT_iff hsh q
+      simp only [content, mroot, hr, if_false, mptop, hfind, hent, mruns, List.mem_append, List.mem_filter, hhas]
       constructor
       · rintro (h' | ⟨h1, _⟩)
         · exact hst.runProps q h'
@@ -512,24 +507,31 @@ theorem content_of_store {T : List Tx} {m : Mem} {cs : List CTx} {p : PImg} (hst
         · exact Or.inl h'
         · right
           obtain ⟨h1, h2⟩ := hcov q h'
-          exact ⟨h1, by simp [h1, h2]⟩
+          exact ⟨h1, h1, h2⟩
 
 theorem content_of_inv {T : List Tx} {fs : FS} {m : Mem} {cs : List CTx} {c : Nat} (h : InvOpen T fs m cs c) :
     Spec.Content.same (content m fs.pv) (Spec.run T) := by
   rw [h.pv]
   exact content_of_store h.store h.mexts h.mruns h.msegs h.mroot h.mptop
 
+/-- what the theorems need from the configuration: the node-table slot is synced before it is counted,
+    creation syncs, fresh pages are zero, appends cut a torn tail off, a leaf holds at least one entry -/
+def CfgOK (cfg : Cfg) : Prop :=
+  cfg.syncSlot = true ∧ cfg.syncCreate = true ∧ cfg.freshZero = true ∧ cfg.tailTolerant = true ∧ 1 ≤ cfg.leafCap
+
+instance (cfg : Cfg) : Decidable (CfgOK cfg) := inferInstanceAs (Decidable (_ ∧ _ ∧ _ ∧ _ ∧ _))
+
 /-- **C01 + C02 over all histories of this shape**: whatever the incarnations did and wherever
     they died, the next open succeeds and shows the content of an admissible transaction list:
     the initial one, every acknowledged commit, and — entirely or not at all — each commit that
     was in flight at a death. -/
-theorem crash_recover {cfg : Cfg} (hsync : cfg.syncSlot = true) (hfz : cfg.freshZero = true) (hsc : cfg.syncCreate = true)
+theorem crash_recover {cfg : Cfg} (hsync : cfg.syncSlot = true) (hfz : cfg.freshZero = true) (hsc : cfg.syncCreate = true) (hcap1 : 1 ≤ cfg.leafCap)
     (rounds : List Round) (T0 : List Tx) (fs0 : FS)
     (seen : List Nat) (hc : Start T0 fs0) (hsub : ∀ x ∈ allNodes T0, x ∈ seen) (hok : HistOK cfg fs0 seen rounds) :
     ∃ T m fs', Spec.Admissible T0 (rounds.map Round.obs) T ∧
       recover cfg (afterRounds cfg fs0 rounds) = .ok (m, fs') ∧
       Spec.Content.same (content m fs'.pv) (Spec.run T) := by
-  obtain ⟨T, hadm, hcl⟩ := rounds_safe hsync hfz hsc rounds T0 fs0 seen hc hsub hok
+  obtain ⟨T, hadm, hcl⟩ := rounds_safe hsync hfz hsc hcap1 rounds T0 fs0 seen hc hsub hok
   obtain ⟨hfail, _, _, cs, c, hinv, _⟩ := open_start (cfg := cfg) hsync hfz hsc hcl
   obtain ⟨o1, o2, o3⟩ := run_none (openA cfg (afterRounds cfg fs0 rounds).pv (afterRounds cfg fs0 rounds).wf)
     (afterRounds cfg fs0 rounds) {}
